@@ -1,9 +1,12 @@
 package checks
 
 import (
+	"encoding/json"
 	"fmt"
 	"math"
 	"reflect"
+	"strconv"
+	"strings"
 
 	at "github.com/DanielSvub/anytype"
 	"verif/bfs"
@@ -130,6 +133,7 @@ func c01Pass(v *spec.V, c interface{}) (msg, stage string) {
 }
 
 func runC01(c *ev.Ctx) {
+	defer sizeSweep(c, "C01")
 	o := docOptsFor(c)
 	c.Rule(docRule(o) + "Each document: build, String(), Parse*, kind-strict walk through the public API, Equals both ways, second generation. Non-trivial = distinct serialised text that contains an escape, a non-ASCII byte, a fraction/exponent number or nesting depth >= 2.")
 	c.Assume("object key order in String() follows Go map iteration; oracles are order-insensitive", "invalid UTF-8 strings, NaN and infinities are outside the statement and not generated")
@@ -178,6 +182,12 @@ func c02One(v *spec.V) (msg, stage string) {
 			return "equal subtrees built as one shared container: " + m, "shared-subtrees/" + st
 		}
 	}
+	// the same document as it comes out of the parser
+	if p, err := parseRoot(v, rootString(c)); err == nil {
+		if m, st := c02Pass(v, p); m != "" {
+			return "container re-parsed from its own String(): " + m, "reparsed/" + st
+		}
+	}
 	return "", ""
 }
 
@@ -197,6 +207,7 @@ func c02Pass(v *spec.V, c interface{}) (msg, stage string) {
 }
 
 func runC02(c *ev.Ctx) {
+	defer sizeSweep(c, "C02")
 	o := docOptsFor(c)
 	o.RuneContexts = true
 	if !c.Thorough() {
@@ -221,6 +232,18 @@ func runC02(c *ev.Ctx) {
 	if c.Expired() {
 		c.Cut("deadline reached before the document space was completed")
 	}
+	// containers that come out of the PARSER: (a) every document re-parsed from its own String() - done inside
+	// c02Parsed for the tree sub-space; (b) texts in spellings the lenient parser accepts although they are not
+	// standard JSON (Go escapes, raw control characters): the parsed container holds ordinary strings and its
+	// String() must again be standard JSON denoting what the container reports through its API
+	for _, t := range c02LenientTexts() {
+		c.Eval(1)
+		c.Nontrivial("lenient/" + t)
+		if msg, sig := c02Parsed(t); msg != "" {
+			t := t
+			c.Violate(ev.Violation{Sig: sig, Msg: msg, Witness: map[string]string{"text": t}}, func() string { _, s := c02Parsed(t); return s })
+		}
+	}
 	// containers reached through HISTORIES (not only freshly built ones): explicit-state search over
 	// Set/Unset/Clear/Merge/Pluck resp. Add/Insert/Delete/... programs in which String() is called after
 	// every step; only the String() observation is judged here (the rest belongs to C05/C06)
@@ -243,6 +266,99 @@ func runC02(c *ev.Ctx) {
 			"transitions": c.Trans(), "note": "every transition is followed by String() on every live container, decoded by encoding/json and compared with the reference model"})
 		c.Eval(int(c.Trans()))
 	}
+}
+
+// c02LenientTexts: non-standard spellings the parser accepts, as list element, object value and key.
+func c02LenientTexts() []string {
+	var out []string
+	lits := []string{bs + "x41", bs + "a", bs + "v", bs + "U0001F600", bs + "101", "raw\ttab", "raw\x7fdel", bs + "'", "a" + bs + "x42c", bs + "u0041" + bs + "x42", "plain"}
+	for _, l := range lits {
+		out = append(out, `["`+l+`"]`, `["`+l+`",1,"`+l+`"]`, `{"k":"`+l+`"}`, `{"`+l+`":1}`, `[{"k":["`+l+`"]}]`, "[ \n \""+l+"\" ]")
+	}
+	return out
+}
+
+// c02Parsed parses a text (list or object root by its first bracket); if the parser accepts it, String() of
+// the result must be standard JSON that decodes to exactly what the container reports through its API.
+func c02Parsed(text string) (msg, sig string) {
+	var cont interface{}
+	var err error
+	if strings.HasPrefix(strings.TrimSpace(text), "[") {
+		cont, err = at.ParseList(text)
+	} else {
+		cont, err = at.ParseObject(text)
+	}
+	if err != nil {
+		return "", "" // rejected: nothing to serialise
+	}
+	for pass := 0; pass < 2; pass++ {
+		s := rootString(cont)
+		if !jsonref.Valid(s) {
+			return fmt.Sprintf("container parsed from %+q serialises to %+q: not valid JSON", text, s), "json/parsed-container/invalid-json"
+		}
+		dec, derr := jsonref.Decode(s)
+		if derr != nil {
+			return fmt.Sprintf("container parsed from %+q serialises to %+q: %v", text, s, derr), "json/parsed-container/decoder-rejects"
+		}
+		if why := matchDecodedReal(dec, cont); why != "" {
+			return fmt.Sprintf("container parsed from %+q serialises to %+q which denotes other data than the container holds: %s", text, s, why), "json/parsed-container/decoded-differs"
+		}
+	}
+	return "", ""
+}
+
+// matchDecodedReal compares an encoding/json (UseNumber) result with a real container read through its API.
+func matchDecodedReal(dec interface{}, real interface{}) string {
+	switch x := real.(type) {
+	case at.List:
+		arr, ok := dec.([]interface{})
+		if !ok || len(arr) != x.Count() {
+			return fmt.Sprintf("list of %d vs %v", x.Count(), dec)
+		}
+		for i := range arr {
+			if why := matchDecodedReal(arr[i], x.Get(i)); why != "" {
+				return fmt.Sprintf("#%d: %s", i, why)
+			}
+		}
+	case at.Object:
+		m, ok := dec.(map[string]interface{})
+		if !ok || len(m) != x.Count() {
+			return fmt.Sprintf("object of %d vs %v", x.Count(), dec)
+		}
+		for k, dv := range m {
+			if !x.KeyExists(k) {
+				return fmt.Sprintf("key %+q not in the container", k)
+			}
+			if why := matchDecodedReal(dv, x.Get(k)); why != "" {
+				return fmt.Sprintf(".%s: %s", k, why)
+			}
+		}
+	case string:
+		if s, ok := dec.(string); !ok || s != x {
+			return fmt.Sprintf("string %+q vs %v", x, dec)
+		}
+	case nil:
+		if dec != nil {
+			return fmt.Sprintf("nil vs %v", dec)
+		}
+	case bool:
+		if b, ok := dec.(bool); !ok || b != x {
+			return fmt.Sprintf("%v vs %v", x, dec)
+		}
+	case int:
+		if n, ok := dec.(json.Number); !ok || string(n) != strconv.Itoa(x) {
+			return fmt.Sprintf("int %d vs %v", x, dec)
+		}
+	case float64:
+		n, ok := dec.(json.Number)
+		if !ok {
+			return fmt.Sprintf("float %v vs %v", x, dec)
+		}
+		if f, good := jsonref.NumberFloat(string(n)); !good || f != x {
+			return fmt.Sprintf("float %v vs literal %s", x, n)
+		}
+	}
+	return ""
 }
 
 // ---------------- C16 ----------------
@@ -319,6 +435,7 @@ func c16Pass(v *spec.V, c interface{}, n int) (msg, stage string) {
 }
 
 func runC16(c *ev.Ctx) {
+	defer sizeSweep(c, "C16")
 	o := docOptsFor(c)
 	o.Floats, o.Ints = true, true
 	o.RuneContexts = false
